@@ -31,7 +31,10 @@ CONSTANT Modes   \* tuple of records: what the machine enumerates (see MC_Lookup
                  \*   maxlen longest vector
                  \*   maxz   most blanks at either end
                  \*   srt    TRUE: only vectors that stay ascending or descending
-                 \*   w      0: export MATCH; 2..4: export tables of that width
+                 \*   w      0: export MATCH; 1..4: export tables of that width
+                 \*          (1: the key column is the whole table -- down to
+                 \*          the table of ONE cell, which is a range like any
+                 \*          other: A1:A1)
 
 VARIABLES mode,   \* index into Modes (fixed by Init)
           a,      \* the lookup vector built so far
@@ -275,7 +278,10 @@ LookupArr(v, T) ==
 
 \* The table the machine derives from its vector: the vector is the key
 \* column, the other columns hold recognisable payload (numbers that name
-\* their cell, some text, some blank cells).
+\* their cell, some text, some blank cells).  Width 1 is the degenerate
+\* table whose only column is searched AND answered from (VLOOKUP(v, T, 1,
+\* ..) returns the key cell it found); with a vector of one cell it is the
+\* 1 x 1 table, its own transpose.
 Pay(r, c) == IF (r + c) % 5 = 0 THEN Blank
              ELSE IF (r + c) % 5 = 1 THEN Txt(<<"b">>)
              ELSE Num(10 * c + r)
@@ -475,6 +481,15 @@ TableLaws ==
     LET T  == TableOf(a, w)
         TT == Transpose(T)
     IN  /\ Transpose(TT) = T
+        \* a table of one cell is its own transpose: there VLOOKUP, HLOOKUP
+        \* and both forms of LOOKUP are one and the same function of (v, cell)
+        /\ (Len(a) = 1 /\ w = 1) =>
+             /\ TT = T
+             /\ \A v \in LookSet :
+                  /\ \A approx \in BOOLEAN : \A c \in (-1)..2 :
+                       VLookup(v, T, c, approx) = HLookup(v, T, c, approx)
+                  /\ LookupArr(v, T) = LookupVec(v, a, a)
+                  /\ LookupArr(v, T) = VLookup(v, T, 1, TRUE)
         /\ \A v \in LookSet : \A approx \in BOOLEAN :
              /\ \A c \in (-1)..(w + 1) :
                   VLookup(v, T, c, approx) = HLookup(v, TT, c, approx)
